@@ -136,7 +136,7 @@ type History struct {
 }
 
 // Known lists the method names the world's assigner resolves.
-var Known = map[string]bool{"rpc.": true, "ret": true, "gate": true, "err": true, "raw": true, "cbgate": true, "notegate": true, "svc.ret": true, "rpc.user": true}
+var Known = map[string]bool{"rpc.": true, "ret": true, "gate": true, "err": true, "raw": true, "cbgate": true, "notegate": true, "svc.ret": true, "rpc.user": true, "rpcret": true}
 
 type world struct {
 	t     *testing.T
@@ -275,7 +275,7 @@ func (w *world) assign(ctx context.Context, method string) jrpc2.Handler {
 		}()
 		tok := Token{K: p.K, Inv: inv}
 		switch method {
-		case "ret", "svc.ret", "rpc.user", "rpc.":
+		case "ret", "svc.ret", "rpc.user", "rpc.", "rpcret": // ("rpcret": a name that merely begins like the reserved prefix)
 			return tok, nil
 		case "err":
 			if p.NoMsg {
